@@ -200,6 +200,9 @@ class ImmutableHeadersMixin:
     def add_header(self, key: t.Any, value: t.Any, /, **kwargs: t.Any) -> t.NoReturn:
         _immutable_error(self)
 
+    def clear(self) -> t.NoReturn:
+        _immutable_error(self)
+
     def remove(self, key: t.Any) -> t.NoReturn:
         _immutable_error(self)
 
